@@ -85,4 +85,24 @@ func init() {
 			"'each exercised through the public minifier' is not decided by this technique",
 		},
 	})
+	registerProp(&PropSpec{
+		ID:       "C02",
+		Patterns: []string{"./js"},
+		Units: []string{
+			modPath + "/js.(*renamer).isReserved",
+			modPath + "/js.(*renamer).renameScope",
+		},
+		Bounded: []BoundedUnit{
+			{Harness: modPath + "/js.specHarnessRenamerNames2", For: modPath + "/js.(*renamer).getName", QuickN: 1, ThoroughN: 1, Tier: "quick",
+				What: "every index of a one- or two-character name, both alphabets, in-place and reallocating buffers: getName yields an IdentifierName and getIndex(getName(i)) == i (hence injective)"},
+			{Harness: modPath + "/js.specHarnessRenamerNames", For: modPath + "/js.(*renamer).getName", QuickN: 1, ThoroughN: 1, Tier: "thorough",
+				What: "the same for every index below 224694 (all names of up to three characters)"},
+		},
+		Notes: []string{
+			"per-scope slice of capture-freedom: (1) isReserved reports every reserved word of length > 1 (and nothing else when there are no undeclared variables); (2) renameScope makes no call at all (hence writes nothing through getName/isReserved) when renaming is off; (3) generated names are IdentifierNames and distinct for distinct indices below the bound",
+			"A-parser: *Var pointers in Declared/Undeclared are non-nil; Undeclared lists every variable used in the scope or below that is declared outside (the invariant the whole property rests on) - not verified",
+			"not decided: the comparison against link-resolved undeclared names (Link chains), sort.Sort permutation, scopes renamed parents-first, hoisting (hoistVars), shorthand re-expansion",
+			"A-key: content keys (uninterpreted ckey) identify byte-string contents; bytes.Equal and map lookups by string(name) are expressed through them",
+		},
+	})
 }
